@@ -26,7 +26,7 @@ CFG = {
              "additionally merge_grace 1 min/10 min/1 h (span timestamps of one trace stay within it, the engine's documented contract), decide timeout, circuit-break count, semaphore sizes 1-4, finalize on/off, "
              "sampler projection (span ids / metadata only / span ids+bodies+tag) and the verdict plan; 'schedules' additionally the armed gate sites and the release choices. Non-trivial = a flush or merge was "
              "seen on disk (no-sampler), a sampler was called (sampler), a merge happened under gates (schedules); distinct = canonical event-log digests"),
-    "expected_probes": ["reach.flush_created_part", "reach.merge_happened", "reach.trace_spans_multiple_parts", "reach.trace_spans_multiple_segments", "reach.ordered_query_checked",
+    "expected_probes": ["reach.order_of_traces_checked", "knob.sampler_stage_budget_shrunk", "reach.flush_created_part", "reach.merge_happened", "reach.trace_spans_multiple_parts", "reach.trace_spans_multiple_segments", "reach.ordered_query_checked",
                         "reach.sidx_entries_checked", "reach.sampler_called", "reach.sampler_answered_drop", "reach.trace_dropped_whole", "reach.trace_dropped_then_late_spans_kept",
                         "fault.sampler_error", "fault.sampler_panic", "fault.sampler_wrong_length", "fault.sampler_timeout", "reach.sampler_link_ran_after_deadline",
                         "reach.held_goroutine_released", "reach.released_out_of_usual_order", "reach.write_while_merge_goroutine_held"],
